@@ -83,6 +83,11 @@ func walkTree(rootGoitPath string, object *Object) ([]*Node, error) {
 	var nodeName string
 	isFirstLine := true
 
+	// a tree without entries (the snapshot of an empty index) has no data to walk
+	if len(object.Data) == 0 {
+		return nodes, nil
+	}
+
 	buf := bytes.NewReader(object.Data)
 	for {
 		var lineSplit []string
